@@ -6,7 +6,7 @@ use crate::oracle::Strategy;
 use crate::pipeline::{honest_presentation, select_all, sign, Cfg};
 use crate::rng::Rng;
 use crate::sut::{self, Out};
-use crate::util::{b64d, b64e, jstr, short, Parts, FAR_EXP, J};
+use crate::util::{b64e, jstr, short, Parts, FAR_EXP, J};
 use jsonwebtoken::{Algorithm, EncodingKey, Header};
 use serde_json::json;
 use std::str::FromStr;
